@@ -57,7 +57,7 @@ ASSUMPTIONS = [
 ]
 BUDGET = {'quick': (400, 30.0), 'thorough': (6000, 270.0)}
 HASHSEEDS = [0, 1, 2, 3, 4, 5, 6, 7]
-REQUIRED_REACH = {'*': [
+REQUIRED_REACH = {'*': ['running_containers_checked_against_released_name_formula', 
     'syncs_with_containers', 'manager_restarts', 'node_starts', 'observations_two_generations_coexist',
     'placed_again_while_old_generation_exists', 'self_finish', 'cleanups_completed',
     'tombstones_written_ended_container', 'tombstones_written_terminated_container', 'tombstones_executed',
